@@ -14,7 +14,7 @@ RULE = ("seeded gen_coords runs with dense, tiny, cubic, non-cubic and density-d
 ASSUMPTIONS = wa.ASSUMPTIONS + ["where twice the step length reaches the smallest box edge the literal minimum-image reading "
                                 "is undefined; there the oracle demands that some periodic image of the displacement has the step length"]
 REAL_VS_STUB = wa.REAL_VS_STUB
-PROBES = wa.PROBES + ["size_ratio_above_4", "bending_constants", "ring_soup", "placed_interacting_across_boundary", "step_longer_than_half_box", "user_grid"]
+PROBES = wa.PROBES + ["earlier_call_same_topology_paths", "size_ratio_above_4", "bending_constants", "ring_soup", "placed_interacting_across_boundary", "step_longer_than_half_box", "user_grid"]
 PROFILE = {"box_modes": ["dense", "dense", "tiny", "cubic", "noncubic", "density"], "p_gs": 0.5, "p_sf": 0.5, "p_mf": 0.5,
            "faults": ["step", "start", "overlap"], "n_entries": (1, 4), "max_molecules": 12,
            "shapes": ["single", "linear", "linear", "star", "comb", "tree", "ring"]}
@@ -71,6 +71,8 @@ def gen_job(verif_seed, tier, index):
                               for _ in range(g.randint(1, 3))]
     if g.random() < 0.15:
         jobgen.add_coordinates(job, g, {"coord_modes": ["prefix", "meta_prefix", "res"]})
+    if job.get("coord_text") is None and not job.get("bld_volumes") and g.random() < 0.1:
+        jobgen.add_pre_variant(job, g, g.choice(["other_geometry", "other_graph"]))
     return job
 
 
